@@ -1344,7 +1344,9 @@ def _pipeline_doc():
     gs = El("g", {"opacity": "0.9999996", "id": "gs"}, [El("path", {"id": "ps1", "d": pd(("M", (85, 80)), ("L", (87, 80)), ("L", (87, 82)), ("Z", ()))}),
                                                        El("path", {"id": "ps2", "d": pd(("M", (85, 90)), ("L", (87, 90)), ("L", (87, 92)), ("Z", ()))})], name="gs")
     gso = El("g", {"id": "gso", "opacity": "1"}, [gs], name="gso")
-    root = El("svg", {"viewBox": "0 0 100 100", "fill": "red", "{http://example.com/ns}attr": "x"}, junk + [defs, ga, gb, r, u, z2, ev, st, nested, cl, hidden, uf, us, gt, gc, po, gr, gso], name="root")
+    # a coordinate so small that CPython prints it with an exponent and without a decimal point (1e-05): it is a number like any other
+    tiny = El("path", {"id": "tiny", "d": pd(("M", (10, 40)), ("H", (30,)), ("V", (45,)), ("L", (Fraction(1, 100000), 45)), ("Z", ()))}, name="tiny")
+    root = El("svg", {"viewBox": "0 0 100 100", "fill": "red", "{http://example.com/ns}attr": "x"}, junk + [defs, ga, gb, r, u, z2, ev, st, nested, cl, hidden, uf, us, gt, gc, po, gr, gso, tiny], name="root")
     return root
 
 
@@ -1697,6 +1699,14 @@ def _add_noise(root: El):
             w = El("g", {})
             root._append(w, idx)
             w._append(ch)
+    # ... and around every other child of defs (gradients, clip paths, use targets)
+    for d in [n for n in root.subtree() if isinstance(n.tag, str) and n.local() == "defs"]:
+        for i, ch in enumerate([c for c in d.children if isinstance(c.tag, str) and c.local() in ("linearGradient", "radialGradient", "clipPath", "path")]):
+            if i % 2 == 0:
+                idx = d.children.index(ch)
+                w = El("g", {})
+                d._append(w, idx)
+                w._append(ch)
     root.attrib[FOREIGN + "version"] = "1"
     # an id-less symbol (dead for every renderer) whose content shadows ids that live uses refer to, and contains dead uses
     root._append(El("symbol", {}, [El("path", {"id": "pf", "fill": "lime", "d": pd(("M", (0, 0)), ("L", (1, 0)), ("L", (1, 1)), ("Z", ()))}),
